@@ -30,7 +30,7 @@ def observe(binp, cases, with_model=False, shards=14):
         r = byid.get(c["id"])
         if r is None:
             continue
-        j = {"case": c, "rec": r, "runs": r["runs"], "first_pass": S.go_view(r["first_pass"]) if r.get("first_pass") else None}
+        j = {"case": c, "rec": r, "runs": r.get("runs", {}), "first_pass": S.go_view(r["first_pass"]) if r.get("first_pass") else None}
         j.update(mv.get(c["id"], {"model": None, "d4": None, "classes": []}))
         out.append(j)
     return out
